@@ -126,6 +126,14 @@ def c01(rep, tier):
                         if other is not None and load_loc(other) == (ipspec['if_zero']['frame'], ipspec['if_zero']['reg']):
                             return (t[1] == '==') == pol
                     return None
+                if isinstance(ipt, tuple) and ipt[0] == 'lin':
+                    # ip += test ? offset : 1   ->   ip = test ? ip + offset : ip + 1
+                    from .symex import lin_parts as _lp, mk_lin as _ml, t_add as _ta
+                    c_, atoms_ = _lp(ipt)
+                    ites = [a_ for a_, k_ in atoms_.items() if isinstance(a_, tuple) and a_ and a_[0] == 'ite' and k_ == 1]
+                    if len(ites) == 1:
+                        rest = _ml(c_, {a_: k_ for a_, k_ in atoms_.items() if a_ is not ites[0]})
+                        ipt = ('ite', ites[0][1], _ta(rest, ites[0][2]), _ta(rest, ites[0][3]))
                 if isinstance(ipt, tuple) and ipt[0] == 'ite':
                     z = polarity_of(ipt[1], True)
                     if z is not None:
@@ -174,6 +182,10 @@ def c01(rep, tier):
                             why.append('stores %s, contract: value of frame %d + %s' % (t_show(vt), v['frame'], v['reg']))
                     elif v['kind'] == 'test':
                         okt = False
+                        if isinstance(vt, tuple) and vt[0] == 'not' and isinstance(vt[1], tuple) and vt[1][0] == 'cmp' and vt[1][1] in ('==', '!='):
+                            vt = ('cmp', '!=' if vt[1][1] == '==' else '==', vt[1][2], vt[1][3])
+                        if isinstance(vt, tuple) and vt[0] == 'cmp' and vt[1] in ('==', '!=') and len(vt) == 4:
+                            vt = ('ite', vt, C(1), C(0))      # a comparison stored as a number: 1 when it holds, 0 otherwise
                         if isinstance(vt, tuple) and vt[0] == 'ite' and isinstance(vt[1], tuple) and vt[1][0] == 'cmp' and vt[1][1] in ('==', '!='):
                             locs = sorted([load_loc(vt[1][2]) or (9, '?'), load_loc(vt[1][3]) or (9, '?')])
                             wl = sorted([(0, v['a']), (0, v['b'])])
